@@ -12,6 +12,7 @@ import (
 )
 
 var modelKeys = []string{
+	"(*protocol.*).*Iterator", "(*protocol.*Iterator).HasNext", "(*protocol.*Iterator).Next*",
 	"(primitives.*).Equal", "(primitives.*).String", "(primitives.*).KeyForMap",
 	"bytes.Equal", "errors.New", "errors.Errorf", "fmt.Errorf", "errors.Wrap", "errors.Wrapf",
 	"fmt.Sprintf", "fmt.Sprint", "iface:error.Error", "strings.Join",
@@ -122,6 +123,50 @@ func (f *Frame) modelCallFull(key string, sig *types.Signature, vals []Val, args
 		return r, true
 	}
 	resT := func(i int) types.Type { return sig.Results().At(i).Type() }
+	// A-ITER: a membuffers iterator enumerates the fixed finite sequence seq_at:<Field>(message, 0..seq_len:<Field>(message)-1)
+	if strings.HasPrefix(key, "(*protocol.") && c != nil && c.StaticCallee() != nil {
+		name := c.StaticCallee().Name()
+		recvT := ""
+		if r := sig.Recv(); r != nil {
+			recvT = vc.S.typeName(r.Type())
+		}
+		switch {
+		case strings.HasSuffix(name, "Iterator") && len(vals) == 1:
+			vc.used["A-ITER"] = true
+			field := strings.TrimSuffix(name, "Iterator")
+			it := f.newRef("iter:"+field, resT(0))
+			vc.declareFun("iter_src", []Sort{SInt}, SInt)
+			vc.assume(eq(sx("iter_src", it.t), vals[0].t))
+			pos := f.getCell(f.cur, "ghost:iterpos", "(Array Int Int)")
+			f.setCell(f.cur, "ghost:iterpos", "(Array Int Int)", sx("store", pos, it.t, "0"))
+			vc.iterField[it.t] = field
+			return it, true
+		case strings.HasSuffix(recvT, "Iterator") && (name == "HasNext" || strings.HasPrefix(name, "Next")):
+			vc.used["A-ITER"] = true
+			field := iterFieldOfType(recvT)
+			it := vals[0]
+			lenF, atF := "|seq_len:"+field+"|", "|seq_at:"+field+"|"
+			vc.declareFun(lenF, []Sort{SInt}, SInt)
+			vc.declareFun(atF, []Sort{SInt, SInt}, SInt)
+			vc.declareFun("iter_src", []Sort{SInt}, SInt)
+			src := sx("iter_src", it.t)
+			n := sx(lenF, src)
+			vc.assume(and(sx("<=", "0", n), sx("<=", n, "9223372036854775807")))
+			pos := f.getCell(f.cur, "ghost:iterpos", "(Array Int Int)")
+			cur := sx("select", pos, it.t)
+			if name == "HasNext" {
+				return Val{sx("<", cur, n), SBool, types.Typ[types.Bool]}, true
+			}
+			f.safety("iter-next", sx("<", cur, n), pos0(pos, c))
+			el := vc.fresh("iterelem", SInt)
+			vc.assume(eq(el, sx(atF, src, cur)))
+			vc.assume(sx("distinct", el, "0"))
+			r := Val{el, SInt, resT(0)}
+			f.assumeAlive(f.cur, r)
+			f.setCell(f.cur, "ghost:iterpos", "(Array Int Int)", sx("store", pos, it.t, sx("+", cur, "1")))
+			return r, true
+		}
+	}
 	switch key {
 	case "errors.New", "errors.Errorf", "fmt.Errorf":
 		vc.used["A-LOG"] = true
@@ -239,3 +284,21 @@ func (f *Frame) modelSortSlice(c *ssa.CallCommon, pos token.Pos) (EV, bool) {
 }
 
 type sortFact struct{ i, j, n, less string }
+
+func pos0(_ string, c *ssa.CallCommon) token.Pos {
+	if c != nil {
+		return c.Pos()
+	}
+	return token.NoPos
+}
+
+// iterFieldOfType: "*protocol.BlockProofNodesIterator" -> "Nodes" (the field name is recovered from the Next<Field> method)
+func iterFieldOfType(t string) string {
+	t = strings.TrimSuffix(strings.TrimPrefix(t, "*protocol."), "Iterator")
+	for _, known := range []string{"PrepareSenders", "ViewChangeConfirmations", "Nodes"} {
+		if strings.HasSuffix(t, known) {
+			return known
+		}
+	}
+	return t
+}
